@@ -187,7 +187,7 @@ class SepAny(AnyNode):
     separator = "::"
 
 
-ATTRKEYS = ["b", "a", "_hidden", "zz", "B"]
+ATTRKEYS = ["b", "a", "_hidden", "name2", "zz", "B", "names", "target2"]
 ATTRVALS = [7, "x", None, [1, "y"], True, "it's", -1]
 
 
